@@ -433,6 +433,11 @@ def analyse(src: Source) -> List[Report]:
                        f"{claimed} times the true prefactor (the ratio the code itself claims through its defaults); this section uses "
                        f"{b / k if k else None}")
     rep.unit("configured_coulomb_bound_pairs", n_pairs)
+    # the estimators' grids reach the upper faces of the cell (otherwise the bound over the cell is not a bound)
+    from ..estimator_rules import check_estimator_grids
+    if not check_estimator_grids(src, rep):
+        rep.ob("R4.7-grid-reaches-upper-face", None, Loc("jellyfysh/estimator/inner_point_estimator.py", 0, "estimators"),
+               "no grid of the form index / n with the index from range(..) found", "grid construction not recognised: undecided")
     rep.expect_min("R4.4-configured-bound-ratio", 10)
     # a bounding rate that is not dimensionally consistent (e.g. a squared length clamped at a pure number) cannot dominate the
     # true rate at every length scale: units-of-measure inference over the potentials (rule set shared with C03)
